@@ -93,6 +93,27 @@ def run(ck):
         if numpy.abs(direct - via).max() > 1e-9 * sc:
             ck.fail("apply-vs-propagate", "U applied to a state differs from direct propagation with the same internal step", inp,
                     float(numpy.abs(direct - via).max()))
+        # the entry points of apply() that take several times at once: a list / tuple / array / TimeAxis of grid times (also spaced by a
+        # multiple of the step, also not starting at zero), the superoperator's own axis, "all"
+        forms = [("own axis", time, list(range(Nt))), ("'all'", "all", list(range(Nt)))]
+        if Nt >= 3:
+            i0 = rng.randint(0, 1)
+            sel2 = list(range(i0, Nt, 2))
+            if len(sel2) >= 2:
+                forms.append(("list spaced by two steps", [float(time.data[i]) for i in sel2], sel2))
+            sel1 = list(range(1, Nt))
+            forms.append(("tuple", tuple(float(time.data[i]) for i in sel1), sel1))
+            forms.append(("array", numpy.array([float(time.data[i]) for i in sel1]), sel1))
+            forms.append(("TimeAxis", TimeAxis(float(time.data[i0]), len(sel2), 2 * step), sel2) if len(sel2) >= 2 else ("TimeAxis", TimeAxis(step, Nt - 1, step), sel1))
+        for fname, targ, sel in forms:
+            try:
+                many = numpy.array(U.apply(targ, ReducedDensityMatrix(data=rho0.copy())).data)
+            except Exception as e:
+                ck.fail("raises:apply:many-times", "apply(%s, rho) raised %r" % (fname, e), dict(inp, times=fname))
+                continue
+            if many.shape[0] != len(sel) or numpy.abs(many - direct[sel]).max() > 1e-9 * sc:
+                ck.fail("apply-vs-propagate:many-times", "U applied at several times at once (%s) differs from direct propagation at those times" % fname,
+                        dict(inp, times=fname, indices=sel), float(numpy.abs(many - direct[sel]).max()) if many.shape[0] == len(sel) else list(many.shape))
         # the same clauses with U presented in another basis (all-times storage is transformed slice by slice)
         try:
             from quantarhei import eigenbasis_of
